@@ -491,6 +491,15 @@ def r_field_sources(r, prog):
                 else:
                     r.finding('number-narrowed-before-conversion:%s:%s' % (f.name, c.name()), c.span,
                               '%s applies %s to a narrowed copy of the value (%s): values outside that width wrap' % (f.name, c.name(), recv.strip()[:80]))
+    # a resolved doc-comment link is transmitted as the full scoped name of the entity it designates (parser_scoped_identifier: operations, fields,
+    # enumerators keep their container), an unresolved one as the text that was written
+    lk = prog.fn('slicec_bin::slice_file_converter::convert_doc_comment_link')
+    lv = vexpr(lk, {'cp': {'l': 0}}, depth=8)
+    if lv == 'phi(clone(arg1 as Err.0.value)|parser_scoped_identifier(arg1 as Ok.0))':
+        r.ok('a link is sent as parser_scoped_identifier() of the linked entity, or as written when unresolved')
+        seen.add(('link', 'id'))
+    else:
+        r.finding('link-identifier', lk.span, 'convert_doc_comment_link returns %s: a link must name its entity by parser_scoped_identifier() (members keep their container) or carry the written text' % lv[:200])
     missing = [(n, k) for n, sp in FIELD_SOURCES.items() for k in sp if (n, k) not in seen] + [('Symbol', v) for v in SYMBOL_PAYLOAD if ('Symbol', v) not in seen]
     if missing:
         r.finding('converted-field-never-built', '-', 'the converter never fills %s' % missing)
